@@ -280,7 +280,7 @@ func init() {
 // percolation split with nearly full stores). There the <= 3 ulp differences between Go's math.Pow/Exp/Tanh and libm
 // are amplified by many orders of magnitude within one series, so a 1e-9 comparison of implementation and model says
 // nothing about either. A drawn case is therefore used for the correspondence only if the IMPLEMENTATION ITSELF is
-// insensitive to a 1e-13 relative perturbation of its input series: every output and final state moves by at most
+// insensitive to a 1e-13 relative perturbation of its input series and, separately, of its continuous parameters: every output and final state moves by at most
 // 1e-10 relative (+1e-13 x scale), i.e. condition number <= 1e3, which bounds the libm effect by ~1e-12. Otherwise the
 // series is redrawn (5 times) and then halved in length until the case is well conditioned. The excluded regimes are
 // exercised oracle-only by the `#stiff`/`#wet`/`#adimp` generator variants (family KORACLE).
@@ -296,9 +296,17 @@ func perturbSeries(in [][]float64, eps float64) [][]float64 {
 	return out
 }
 
+// condParams: the parameters that are perturbed by the conditioning probe (continuous ones; GR4J's x4 is left alone
+// because ceil(x4) decides the state layout).
+var condParams = map[string][]int{
+	"GR4J":       {0, 1, 2},
+	"Simhyd":     {0, 1, 2, 3, 4, 5, 6, 7, 8},
+	"Surm":       {0, 1, 2, 3, 4, 5, 6, 7, 8},
+	"Sacramento": {0, 1, 2, 3, 4, 5, 6, 7, 8, 9, 10, 11, 12, 13, 14, 15, 16},
+}
+
 func wellConditioned(model string, p []float64, in [][]float64, s []float64) bool {
 	a := (&KCall{Model: model, P: p, In: in, Init: s == nil, S: s}).Run()
-	b := (&KCall{Model: model, P: p, In: perturbSeries(in, 1e-13), Init: s == nil, S: s}).Run()
 	scale := math.Max(1, math.Max(maxAbs(a.Out...), maxAbs(a.S)))
 	near := func(x, y float64) bool {
 		if math.IsNaN(x) || math.IsNaN(y) || math.IsInf(x, 0) || math.IsInf(y, 0) {
@@ -306,19 +314,34 @@ func wellConditioned(model string, p []float64, in [][]float64, s []float64) boo
 		}
 		return math.Abs(x-y) <= 1e-10*math.Max(math.Abs(x), math.Abs(y))+1e-13*scale
 	}
-	for i := range a.Out {
-		for j := range a.Out[i] {
-			if !near(a.Out[i][j], b.Out[i][j]) {
+	same := func(b *KResult) bool {
+		for i := range a.Out {
+			for j := range a.Out[i] {
+				if !near(a.Out[i][j], b.Out[i][j]) {
+					return false
+				}
+			}
+		}
+		if len(a.S) != len(b.S) {
+			return false
+		}
+		for i := range a.S {
+			if !near(a.S[i], b.S[i]) {
 				return false
 			}
 		}
+		return true
 	}
-	for i := range a.S {
-		if !near(a.S[i], b.S[i]) {
-			return false
-		}
+	// probe 1: the input series (acts on wet days)
+	if !same((&KCall{Model: model, P: p, In: perturbSeries(in, 1e-13), Init: s == nil, S: s}).Run()) {
+		return false
 	}
-	return true
+	// probe 2: the continuous parameters (acts on every step, like a different libm would)
+	p2 := append([]float64{}, p...)
+	for _, i := range condParams[model] {
+		p2[i] *= 1 + 1e-13
+	}
+	return same((&KCall{Model: model, P: p2, In: in, Init: s == nil, S: s}).Run())
 }
 
 func rainPetP(r *Rng, T int, p []float64) [][]float64 { return RainPet(r, T) }
